@@ -175,9 +175,10 @@ def parseTagPart (text : Bytes) (base : Pos) (searchStart : Nat) (part : Bytes) 
           | some vs => tagEnd0 + vs + value.length
           | none => tagEnd0
         else tagEnd0
+      -- columns count runes (`utf8.RuneCountInString(text[:tagStart])`), offsets bytes
       some (⟨name, value,
-        ⟨⟨base.line, base.col + 1 + tagStart, base.off + 1 + tagStart⟩,
-         ⟨base.line, base.col + 1 + tagEnd, base.off + 1 + tagEnd⟩⟩⟩, tagEnd)
+        ⟨⟨base.line, base.col + 1 + (runes (text.take tagStart)).length, base.off + 1 + tagStart⟩,
+         ⟨base.line, base.col + 1 + (runes (text.take tagEnd)).length, base.off + 1 + tagEnd⟩⟩⟩, tagEnd)
 
 def parseTagsLoop (text : Bytes) (base : Pos) : List Bytes → Nat → List Tag
   | [], _ => []
